@@ -86,6 +86,17 @@ var genGenBech32, genGenVrf func(g *G)
 
 func init() {
 	mirrorOps["bech32.dec"], mirrorOps["bech32.enc"] = "gen.bech32.dec", "gen.bech32.enc"
+	// pkg/migration: Encode / Decode answered by the generated code (the two b1t6 encoding errors are one kind there:
+	// the message text is not modelled)
+	mirrorOps["mig.enc"], mirrorOps["mig.dec"] = "gen.mig.enc", "gen.mig.dec"
+	execs["gen.mig.enc"] = func(a []string) string { return execs["mig.enc"](a) }
+	execs["gen.mig.dec"] = func(a []string) string {
+		r := execs["mig.dec"](a)
+		if r == "err addrenc" || r == "err csenc" {
+			return "err enc"
+		}
+		return r
+	}
 	// pkg/bip32path: ParsePath / Path.String answered by the generated code; here the error is reported by kind
 	mirrorOps["path.parse"], mirrorOps["path.print"] = "gen.path.parse", "gen.path.print"
 	execs["gen.path.parse"] = func(a []string) string {
